@@ -13,6 +13,8 @@ import (
 
 	"verif/lib/canon"
 	"verif/lib/ev"
+	"verif/lib/hostile"
+	"verif/lib/rfc6"
 	"verif/lib/schema"
 	"verif/lib/ymodel"
 	"verif/lib/yref"
@@ -27,6 +29,9 @@ type Case struct {
 	Good []ymodel.Source `json:"good"` // mutually consistent texts, one (sub)module each
 	Bad  []ymodel.Source `json:"bad"`  // texts whose load must fail
 	Ops  []Op            `json:"ops"`
+	// Hostile: the pool holds mutated, wrong and cyclic texts (generators of C01); a pool text that is rejected
+	// at load counts as a failed load.
+	Hostile bool `json:"hostile,omitempty"`
 }
 
 // dump renders everything observable of a processed set: trees with types
@@ -134,6 +139,11 @@ func check(c Case) (o ev.Outcome) {
 				}
 				src := c.Good[op.Idx]
 				if err := ms.Parse(src.Text, src.Name); err != nil {
+					if c.Hostile {
+						isLoaded[src.Name] = true
+						sawBad, lastBadKind = true, "hostile-text"
+						continue
+					}
 					o.OutOfClaim = "a text of the consistent pool was rejected at load (judged elsewhere)"
 					return
 				}
@@ -296,6 +306,23 @@ func gen(t *rapid.T) Case {
 	r := yref.New(set)
 	r.Expand()
 	c := Case{Good: set.Texts(), Bad: badTexts(t, set)}
+	if rapid.IntRange(0, 4).Draw(t, "hostile-pool") == 0 {
+		h := hostile.Gen(t)
+		c.Good, c.Hostile = nil, true
+		seen := map[string]bool{}
+		for _, f := range h.Files {
+			if ref := rfc6.Parse(f.Text); ref.OK && len(ref.Stmts) != 1 {
+				continue // several top-level statements in one text: the earlier ones stay loaded (documented)
+			}
+			if !seen[f.Name] {
+				seen[f.Name] = true
+				c.Good = append(c.Good, ymodel.Source{Name: f.Name, Text: f.Text})
+			}
+		}
+		if len(c.Good) == 0 {
+			c.Good, c.Hostile = set.Texts(), false
+		}
+	}
 	if rapid.IntRange(0, 3).Draw(t, "revision-family") == 0 {
 		// several revisions of one module, and modules that import it with and without a revision-date: what
 		// the bare name and the prefix denote changes when a later revision is loaded after a processing run
@@ -341,7 +368,7 @@ func TestCheck(t *testing.T) {
 	ev.Run(t, ev.Spec[Case]{
 		ID:    "C18",
 		Level: "exploration",
-		Rule: "operation histories of 3-13 steps on one module set: load(next text of a pool of mutually consistent single-(sub)module texts from the schema model - a quarter of the pools also hold 2-3 revisions of one module with modules importing it with and without revision-date, using its typedef, grouping, identity and augmenting it - in a random order so that imports and includes are often not yet loaded and later revisions arrive after a processing run), load(bad text: syntax error; module or submodule rejected by a later statement after an inner node with a typedef was already built; a duplicate of a loaded text), process, read (accessors and path lookups that create rpc input/output on demand). " +
+		Rule: "operation histories of 3-13 steps on one module set: load(next text of a pool of mutually consistent single-(sub)module texts from the schema model - a quarter of the pools also hold 2-3 revisions of one module with modules importing it with and without revision-date, using its typedef, grouping, identity and augmenting it - in a random order so that imports and includes are often not yet loaded and later revisions arrive after a processing run; a fifth of the pools consist of the wrong, cyclic and mutated texts of C01's generators, where a pool text rejected at load counts as a failed load), load(bad text: syntax error; module or submodule rejected by a later statement after an inner node with a typedef was already built; a duplicate of a loaded text), process, read (accessors and path lookups that create rpc input/output on demand). " +
 			"Oracle (model = list of accepted good texts): after every process the error list and, when it is empty, the complete dump (trees of all modules and submodules with types, attributes and identity value lists) equal those of a fresh set into which exactly the accepted texts were loaded in the same order and processed once; two consecutive process runs give equal results; every bad load returns an error. " +
 			"Non-trivial = a process after a failed load, or a process after a load that followed an earlier process; distinct by (texts, operation sequence)",
 		Assumptions: []string{
